@@ -339,6 +339,34 @@ def check(ctx):
             ctx.check(okx and oks, caller, call, f"add({canon(ax)}, {outs[0]}, {outs[1]}) pairs the outputs of logger({canon(c.args[0])})",
                       "incremental add pairs a point / SD with a value that was not observed there")
 
+    # ------------------------------------------------------------------ R5
+    ctx.rule("R5", "a fit on thinned training data is performed on a deep copy, never on the live surrogate", floor=1)
+    from .c20 import AliasPolicy
+
+    n5 = 0
+    for fn in prog.functions():
+        thin = [(t, v, s) for t, v, s, k in iter_stores(fn.node) if isinstance(t, ast.Name) and isinstance(v, ast.Subscript) and isinstance(v.value, ast.Name) and v.value.id == t.id
+                and any(isinstance(p_, (ast.For, ast.While)) for p_ in prog.ancestors(s))]
+        fits = [n for n in ast.walk(fn.node) if isinstance(n, ast.Call) and isinstance(n.func, ast.Attribute) and n.func.attr == "fit" and is_gp_expr(prog, fn, n.func.value)]
+        if not thin or not fits:
+            continue
+        thinned = {t.id for t, v, s in thin}
+        gp_params = [p for p in fn.params if is_gp_expr(prog, fn, ast.Name(id=p, ctx=ast.Load()))]
+        fl = TagFlow(prog, fn, AliasPolicy({p: frozenset({f"A:{p}"}) for p in gp_params}), may=True)
+        for c in fits:
+            if not any(isinstance(a, ast.Name) and a.id in thinned for a in c.args):
+                continue
+            st = fl.state_before(c)
+            if st is None:
+                continue
+            tags = fl.policy.eval(c.func.value, st, fl)
+            al = sorted(t for t in tags if t.startswith("A:"))
+            n5 += 1
+            ctx.check(not al, fn, c, f"{canon(c.func.value)}.fit on thinned data works on a private copy", f"the retry fits the *live* surrogate ({canon(c.func.value)} may alias parameter {al}) on thinned data: after a failed fit the GP keeps a training set that is not the nearest-neighbour set of the log",
+                      construct=f"retry fit on alias of {al[0][2:] if al else ''}")
+    if n5 == 0:
+        ctx.rules["R5"].floor = 0
+
     # ------------------------------------------------------------------ R3
     ctx.rule("R3", "training set = log rows nearest to the reference point: one ascending selector, clamped size", floor=6)
     _selector_rules(ctx, prog, R, sel)
